@@ -78,6 +78,13 @@ func H_Inv_Xform(p []int) {
 		if !vContact(v, A, B) {
 			vAssert(poly1.ContainsLine(line1) == pm.ContainsLine(lm), "C12.move-contains-line")
 		}
+		// the small value types move consistently with the shapes built from them
+		vAssert(A.Move(dx, dy) == A2, "C12.move-point")
+		sm := Segment{A: A, B: B}.Move(dx, dy)
+		vAssert(sm.A == A2 && sm.B == B2, "C12.move-segment")
+		vAssert(poly1.Rect().Move(dx, dy) == pm.Rect(), "C12.move-rect")
+		vAssert(line1.Rect().Move(dx, dy) == lm.Rect(), "C12.move-line-rect")
+		vAssert(pm.Clockwise() == poly1.Clockwise() && poly1.Clockwise() == poly1.Exterior.Clockwise(), "C12.move-clockwise")
 	}
 	vCover("inv.xform")
 }
